@@ -519,9 +519,7 @@ func vfC14Entropy(nmin, nmax, lmax int) {
 	site := nondetRange(0, L-1)
 	rg := nondetRange(0, 1) == 1
 	total := vfC14EntropyTotal(orig, n, site, rg)
-	// total = 0: no entropy (0/0), nothing asserted. total = 3: the proportions are thirds,
-	// not representable; the engine rounds concrete quotients but not symbolic ones.
-	assume(total == 1 || total == 2 || total == 4)
+	assume(total > 0) // no counted residue: no entropy (0/0), nothing asserted
 	h1, err1 := al.Entropy(site, rg)
 	h2, err2 := al.Entropy(site, rg)
 	verifMapOrder(false)
@@ -543,15 +541,15 @@ func vfC14Entropy(nmin, nmax, lmax int) {
 }
 
 // H_C14_entropy: Entropy(site, removegaps) = -sum p ln p over the residues of the column (ln uninterpreted), same answer twice under independent map iteration orders.
-// bounds: n<=3 rows, L<=2 columns, residues printable ASCII without lower-case letters, all sites in [0,L), removegaps any; columns with 1 or 2 counted residues
-// outside: columns with 3 counted residues (thirds: IEEE rounding; engine limitation, see report), IEEE rounding in general (real arithmetic, order of summation irrelevant), lower-case residues (case folding of entropy not documented), columns made only of - . * (0/0)
-//verif: maporder=1
+// bounds: n<=3 rows, L<=2 columns, residues printable ASCII without lower-case letters, all sites in [0,L), removegaps any; columns with at least one counted residue
+// outside: IEEE rounding (exact real arithmetic, order of summation irrelevant), lower-case residues (case folding of entropy not documented), columns made only of - . * (0/0)
+// verif: maporder=1
 func H_C14_entropy() { vfC14Entropy(1, 3, 2) }
 
-// H_C14_entropy_deep: as H_C14_entropy with 4 rows (quarters and halves).
-// bounds: n=4 rows, L<=2; columns with 1, 2 or 4 counted residues
-// outside: n>4, columns with 3 counted residues
-//verif: maporder=1 tier=thorough
+// H_C14_entropy_deep: as H_C14_entropy with 4 rows.
+// bounds: n=4 rows, L<=2; columns with at least one counted residue
+// outside: n>4
+// verif: maporder=1 tier=thorough
 func H_C14_entropy_deep() { vfC14Entropy(4, 4, 2) }
 
 // ---------------------------------------------------------------------------------------
@@ -683,9 +681,10 @@ func H_C14_informative_deep() {
 // ---------------------------------------------------------------------------------------
 // PSSM
 
-func vfC14Pssm(nmax, lmax int) {
+func vfC14Pssm(nmax, lmax, cells int) {
 	n := nondetRange(1, nmax)
 	L := nondetRange(1, lmax)
+	assume(n*L <= cells)
 	al, orig := vfSymAlign(NUCLEOTIDS, n, L, vfC14Print)
 	norm := PSSM_NORM_NONE
 	switch nondetRange(0, 3) {
@@ -696,20 +695,17 @@ func vfC14Pssm(nmax, lmax int) {
 	case 3:
 		norm = nondetInt()
 		assume(norm < 0 || norm > 4)
+		assume(n*L == 1) // the error does not depend on the alignment
 	}
 	lg := nondetRange(0, 1) == 1
-	// pseudo-count: any k/4 (k in 0..8) for plain counts; otherwise (T-n)/4 for a power of
-	// two T >= n, so that the site total n+4*pc = T and every quotient is exact
+	// pseudo-count: any k/4 (k in 0..8) for plain counts (linear); 0 or 0.75 otherwise
 	var pc float64
 	if norm == PSSM_NORM_NONE && !lg {
 		pc = nondetDyadic(4, 0, 8)
+	} else if lg {
+		pc = 0.75 // log2(0) is outside the claim
 	} else {
-		T := 1 << uint(nondetRange(0, 3))
-		assume(T >= n)
-		if lg {
-			assume(T > n) // log2(0) is outside the claim
-		}
-		pc = float64(T-n) / 4
+		pc = float64(nondetRange(0, 1)) * 0.75
 	}
 	m1, err1 := al.Pssm(lg, pc, norm)
 	m2, err2 := al.Pssm(lg, pc, norm)
@@ -751,13 +747,12 @@ func vfC14Pssm(nmax, lmax int) {
 }
 
 // H_C14_pssm: Pssm columns are the case-folded counts plus pseudo-count, normalised (none / site frequency / uniform), optionally log2 (ln uninterpreted); unknown normalisation is an error.
-// bounds: nucleotide alignment n<=2 rows, L<=2 columns, residues printable ASCII (mixed case); normalisation NONE/FREQ/UNIF or any int outside 0..4; pseudo-count any k/4 (k in 0..8) for plain counts, otherwise (T-n)/4 for T in {1,2,4,8}, T>=n (T>n with log): site totals that are powers of two
-// outside: IEEE rounding (real arithmetic); DATA and LOGO normalisations; amino-acid alignments; log of a zero count; pseudo-counts giving inexact quotients; map iteration orders (every value is computed independently of the others)
-// verif: merge=0
-func H_C14_pssm() { vfC14Pssm(2, 2) }
+// bounds: nucleotide alignment with n<=2 rows, L<=2 columns, at most 2 residues in all, residues printable ASCII (mixed case); normalisation NONE/FREQ/UNIF, or any int outside 0..4 (1x1 alignment); pseudo-count any k/4 (k in 0..8) for plain counts, 0 or 0.75 otherwise (0.75 with log)
+// outside: IEEE rounding (exact real arithmetic); DATA and LOGO normalisations; amino-acid alignments; log of a zero count; other pseudo-counts; map iteration orders (every value is computed independently of the others)
+func H_C14_pssm() { vfC14Pssm(2, 2, 2) }
 
-// H_C14_pssm_deep: as H_C14_pssm with 3 rows.
-// bounds: n<=3 rows, L<=2 columns
-// outside: n>3
-// verif: merge=0 tier=thorough
-func H_C14_pssm_deep() { vfC14Pssm(3, 2) }
+// H_C14_pssm_deep: as H_C14_pssm with up to 2x2 and 3x1 residues.
+// bounds: n<=3 rows, L<=2 columns, at most 4 residues in all
+// outside: larger alignments
+// verif: tier=thorough
+func H_C14_pssm_deep() { vfC14Pssm(3, 2, 4) }
